@@ -32,7 +32,7 @@ var (
 	astralRunes = []rune{0x10000, 0x1F600, 0x10FFFF, 0x10400, 0x1D11E}
 	loneUnits   = []uint16{0xD800, 0xDC00, 0xDBFF, 0xDFFF}
 	trimUnits   = []uint16{0x9, 0xA, 0xB, 0xC, 0xD, 0x20, 0xA0, 0x1680, 0x180E, 0x2000, 0x2001, 0x2005, 0x200A, 0x2028, 0x2029, 0x202F, 0x205F, 0x3000, 0xFEFF, 0x200B, 0x85, 0x1F, 0x2060}
-	caseUnits   = []uint16{'a', 'Z', 'm', '5', 0xE9, 0xC9, 0xFF, 0xB5, 0xD7, 0xF7, 0xDE, 0xFE, 0x391, 0x3A9, 0x3B1, 0x3C9, 0x3C2, 0x3C3, 0x3A1, 0x400, 0x40F, 0x410, 0x42F, 0x430, 0x44F, 0x450, 0x45F, 0xC0, 0xE0}
+	caseUnits   = []uint16{'a', 'Z', 'm', '5', 0xE9, 0xC9, 0xFF, 0xB5, 0xD7, 0xF7, 0xDE, 0xFE, 0x391, 0x3A9, 0x3B1, 0x3C9, 0x3C2, 0x3C3, 0x3A1, 0x400, 0x40F, 0x410, 0x42F, 0x430, 0x44F, 0x450, 0x45F, 0xC0, 0xE0, 0x100, 0x101, 0x12E, 0x12F, 0x1C4, 0x1C5, 0x1C6, 0x1C8, 0x1C9, 0x1CB, 0x1CC, 0x1F1, 0x1F2, 0x1F3, 0x1C5}
 )
 
 // flavour: 0 ascii, 1 latin1, 2 bmp, 3 astral, 4 with lone surrogates
@@ -518,11 +518,52 @@ func canonicalKey(k string) bool {
 	return true
 }
 
+// Inputs on which otto panics today (classes 4 and 7).  The proposed repairs
+// (proposed_fixes/C09-*.diff) restore the ES5 result there only as far as the unit
+// confusions of class 1/2/3 allow, so these inputs are generated over plain strings
+// (no surrogates, no U+FFFD; ASCII for the byte-indexed lastIndexOf): a repaired tree
+// then agrees with Spec on them instead of showing a third behaviour.
+func overflowArg(m methSpec, args []jarg) bool {
+	if (m.coq != "MSubstr" && m.coq != "MLastIndexOf") || len(args) < 2 || !strings.HasPrefix(args[1].coq, "ANum ") {
+		return false
+	}
+	var bits uint64
+	fmt.Sscanf(args[1].coq, "ANum %d", &bits)
+	f := math.Float64frombits(bits)
+	return f >= 9e18 && !(m.coq == "MLastIndexOf" && math.IsInf(f, 1))
+}
+
+func plain(u []uint16) bool {
+	for _, c := range u {
+		if c >= 0xD800 && c < 0xE000 || c == 0xFFFD {
+			return false
+		}
+	}
+	return true
+}
+
 func (g *c09gen) oneCall() {
 	m := g.pickMethod()
 	u, fl := g.receiverUnits(m)
 	rc := g.receiver(u, false)
 	args := g.callArgs(m, u, fl)
+	if overflowArg(m, args) && flavourOf(u) != "ascii" {
+		u = g.units(0, 7)
+		rc = g.receiver(u, false)
+		a0 := strArg(g, g.needle(u, 0))
+		if m.coq == "MSubstr" {
+			a0 = g.position(lensOf(u))
+		}
+		args = []jarg{a0, args[1]}
+	}
+	if m.coq == "MCharAt" || m.coq == "MCharCodeAt" {
+		for !(strings.HasPrefix(rc.coq, "RLit") || strings.HasPrefix(rc.coq, "RStrObj")) && (rc.coq == "RUndef" || !plain(u)) {
+			if !plain(u) {
+				u = g.units(2, 7)
+			}
+			rc = g.receiver(u, false)
+		}
+	}
 	src := rc.build(m.js, jsOf(args))
 	o := RunJS(g.vm, src)
 	g.env.Add(fmt.Sprintf("CCall %s (%s) %s (%s)", m.coq, rc.coq, coqOf(args), cres(o)),
@@ -652,6 +693,9 @@ func (g *c09gen) chain() {
 			m = methods[4+r.Intn(3)]
 		}
 		args := g.callArgs(m, cur, fl)
+		for overflowArg(m, args) && flavourOf(cur) != "ascii" {
+			args = g.callArgs(m, cur, fl)
+		}
 		step := "var r = s." + m.js + "(" + strings.Join(jsOf(args), ",") + "); if (typeof r === 'string') s = r; r"
 		o := RunJS(vm, step)
 		ops = append(ops, fmt.Sprintf("(%s, %s)", m.coq, coqOf(args)))
